@@ -868,9 +868,10 @@ impl<E: Effect> Executor<E> {
     }
 
     pub fn mark_active(&mut self, id: ProcessId) {
-        let was_spawning = self.spawning.remove(&id);
-        let was_selecting = self.selecting.remove(&id);
-        if was_spawning || was_selecting {
+        // Only a process parked in a select may be woken here. A process parked in `spawning` is
+        // waiting for its NotifySpawn: re-queueing it (e.g. on a stale, empty await snapshot of a
+        // select that a message has already completed) would re-execute the Spawn instruction.
+        if self.selecting.remove(&id) {
             self.queue.push_back(id);
         }
     }
